@@ -25,6 +25,8 @@ def search(fn, tries=200):
 
 def ref_dist(x, c):
     x = np.atleast_2d(x)
+    if x.shape[0] > 1000:
+        return ((np.asarray(c, float)[:, None, :] - np.asarray(x, float)[None, :, :]) ** 2).sum(axis=-1)
     return np.array([[float(np.sum((ck - xs) ** 2)) for xs in x] for ck in c])
 
 
@@ -129,7 +131,13 @@ def mode_criterion(p):
     def one(seed):
         rs = np.random.RandomState(seed)
         K, D, N = rs.randint(1, 4), rs.randint(1, 3), rs.randint(6, 14)
-        x, c = blobs(rs, K, D, N)
+        if seed % 50 == 7:
+            # one realistic-scale block (many clusters x many rows): size-dependent code paths (batching, buffers)
+            K, D, N = 64, 2, 70000
+            c = rs.uniform(-10, 10, size=(K, D))
+            x = c[rs.randint(0, K, size=N)] + rs.normal(size=(N, D)) * 0.05
+        else:
+            x, c = blobs(rs, K, D, N)
         d = ref_dist(x, c)
         lab = d.argmin(axis=0)
         if len(set(lab)) < K:
@@ -150,10 +158,10 @@ def mode_criterion(p):
             m = KMeansMachine(K, init_method=c.copy(), max_iter=1)
             m.fit(data)
             if not close(m.average_min_distance, true, 1e-9):
-                return {"input": {"x": x.tolist(), "init_centroids": c.tolist(), "variant": variant}, "observed": float(m.average_min_distance),
+                return {"input": {"x": x.tolist() if N < 100 else "%d rows, %d clusters (seed %d)" % (N, K, seed), "init_centroids": c.tolist(), "variant": variant}, "observed": float(m.average_min_distance),
                         "expected": true, "what": "reported average_min_distance is not the mean squared distance to the nearest centroid"}
             if not close(m.centroids_, newc, 1e-9):
-                return {"input": {"x": x.tolist(), "init_centroids": c.tolist(), "variant": variant}, "observed": np.asarray(m.centroids_).tolist(),
+                return {"input": {"x": x.tolist() if N < 100 else "%d rows, %d clusters (seed %d)" % (N, K, seed), "init_centroids": c.tolist(), "variant": variant}, "observed": np.asarray(m.centroids_).tolist(),
                         "expected": newc.tolist(), "what": "a returned centroid is not the mean of the samples nearest to its predecessor"}
     return search(one, 100)
 
